@@ -2,6 +2,8 @@ import GmQuic.Drv.Core
 import GmQuic.Model.Wake
 import GmQuic.Model.Wake2
 import GmQuic.Model.WakeAA
+import GmQuic.Model.Wake3
+import GmQuic.Model.Wake4
 /-! Line driver for C16: one entry per waiter/notifier protocol; exact comparison of the poll result and of
 the (sorted) list of wakers woken by every operation.  The models of `Receiving` and `OpenStream` are the
 ones of the FIXED code (repo_patches/fix-C16-*.diff); `C16rx0` / `C16open0` replay against the pinned code. -/
@@ -33,6 +35,16 @@ def mk (P : WaitProto) (parse : List String → Option P.Op) : Model P.σ where
     | some o =>
       let r := P.step s o
       (r.1, s!"{fmtRes r.2.res} wakes={fmtWakes r.2.wakes}")
+
+/-- like `mk`, with extra observation tokens computed from the state before/after the op -/
+def mkX (P : WaitProto) (parse : List String → Option P.Op) (extra : P.σ → P.Op → P.σ → String) : Model P.σ where
+  init := P.init
+  step := exact fun s op =>
+    match parse op with
+    | none => (s, "BAD op")
+    | some o =>
+      let r := P.step s o
+      (r.1, s!"{fmtRes r.2.res}{extra s o r.1} wakes={fmtWakes r.2.wakes}")
 
 def nat? (s : String) : Option Nat := s.toNat?
 
@@ -84,6 +96,52 @@ def parseDgram : List String → Option Dgram.Op
   | ["poll", t, w] => do some (.poll (← nat? t) (← nat? w))
   | ["recv", v] => do some (.recv (← nat? v))
   | ["conn_error"] => some .connError
+  | ["dropfut", t] => do some (.dropfut (← nat? t))
+  | _ => none
+
+def parseSnd : List String → Option Snd.Op
+  | ["poll", t, w, "write", n] => do some (.poll (← nat? t) (← nat? w) (.write (← nat? n)))
+  | ["poll", t, w, "flush"] => do some (.poll (← nat? t) (← nat? w) .flush)
+  | ["poll", t, w, "shutdown"] => do some (.poll (← nat? t) (← nat? w) .shutdown)
+  | ["window", v] => do some (.window (← nat? v))
+  | ["load"] => some .load
+  | ["ack"] => some .ack
+  | ["stop"] => some .stop
+  | ["cancel"] => some .cancel
+  | ["conn_error"] => some .connError
+  | ["dropfut", t] => do some (.dropfut (← nat? t))
+  | _ => none
+
+def sndExtra (s : Snd.State) (o : Snd.Op) (s' : Snd.State) : String :=
+  match o with
+  | .load =>
+    if s'.unacked.length > s.unacked.length then
+      match s'.unacked.getLast? with
+      | some (a, b, fin) => s!" emitted={a}..{b}:{if fin then 1 else 0}"
+      | none => " emitted=-"
+    else " emitted=-"
+  | _ => ""
+
+def parseRcv : List String → Option Rcv.Op
+  | ["poll", t, w, c] => do some (.poll (← nat? t) (← nat? w) (← nat? c))
+  | ["data", o, l, f] => do some (.data (← nat? o) (← nat? l) ((← nat? f) != 0))
+  | ["reset", f] => do some (.reset (← nat? f))
+  | ["conn_error"] => some .connError
+  | ["dropfut", t] => do some (.dropfut (← nat? t))
+  | _ => none
+
+def parseListen : List String → Option Listen.Op
+  | ["poll", t, w, d] => do some (.poll (← nat? t) (← nat? w) ((← nat? d) != 0))
+  | ["arrive", d, k] => do some (.arrive ((← nat? d) != 0) (← nat? k))
+  | ["conn_error"] => some .connError
+  | ["dropfut", t] => do some (.dropfut (← nat? t))
+  | _ => none
+
+def parseFan : List String → Option Fan.Op
+  | ["poll", t, w, m] => do some (.poll (← nat? t) (← nat? w) (BitVec.ofNat 16 (← nat? m)))
+  | ["wake_all", m] => do some (.wakeAll (BitVec.ofNat 16 (← nat? m)))
+  | ["insert", i] => do some (.insert ((← nat? i) != 0))
+  | ["remove", i] => do some (.remove ((← nat? i) != 0))
   | ["dropfut", t] => do some (.dropfut (← nat? t))
   | _ => none
 
@@ -173,6 +231,11 @@ def entries : List (String × IO UInt32) :=
    ("C16keys", runModel (mk (Keys.proto false) parseKeys)),
    ("C16keys1", runModel (mk (Keys.proto true) parseKeys)),
    ("C16dg", runModel (mk Dgram.proto parseDgram)),
-   ("C16aa", runModel aaModel)]
+   ("C16aa", runModel aaModel),
+   ("C16snd", runModel (mkX (Snd.proto 6) parseSnd sndExtra)),
+   ("C16rcv", runModel (mk (Rcv.proto true 100) parseRcv)),
+   ("C16lsn", runModel (mk (Listen.proto 8) parseListen)),
+   ("C16fan", runModel (mk Fan.proto parseFan)),
+   ("C16rcv0", runModel (mk (Rcv.proto false 100) parseRcv))]
 
 end GmQuic.Drv.C16
